@@ -75,25 +75,39 @@ var precedence = [][]string{
 }
 
 type ver struct {
-	S      string
-	Valid  bool // valid semantic version (hand label)
-	MetaOK bool // metadata carrying it has all mandatory fields (false only for "")
-	Quick  bool
+	S         string
+	Valid     bool // valid semantic version (hand label)
+	MetaOK    bool // metadata carrying it has all mandatory fields (false only for "")
+	Quick     bool
+	PlainOnly bool // combined with the two plain source shapes only (further classes of non-semantic versions)
 }
 
+// Every non-semantic version (except the empty one) can be installed into a
+// root without the plugin, so each of them occurs as the NEW version over every
+// installed one and as the INSTALLED version under every new one: a comparison
+// that validates only one operand, or validates more leniently than it
+// compares, shows on one side.
 var versions = []ver{
-	{"1.0.0-alpha", true, true, false},
-	{"1.0.0-alpha.1", true, true, false},
-	{"1.0.0-beta.2", true, true, true},
-	{"1.0.0-beta.11", true, true, true},
-	{"1.0.0", true, true, true},
-	{"1.0.0+b1", true, true, true},
-	{"1.1.0", true, true, false},
-	{"2.0.0", true, true, false},
-	{"1.0", false, true, true},
-	{"v1.0.0", false, true, false},
-	{"01.0.0", false, true, false},
-	{"", false, false, true},
+	{"1.0.0-alpha", true, true, false, false},
+	{"1.0.0-alpha.1", true, true, false, false},
+	{"1.0.0-beta.2", true, true, true, false},
+	{"1.0.0-beta.11", true, true, true, false},
+	{"1.0.0", true, true, true, false},
+	{"1.0.0+b1", true, true, true, false},
+	{"1.1.0", true, true, false, false},
+	{"2.0.0", true, true, false, false},
+	{"1.0", false, true, true, false},     // shorthand: two components
+	{"v1.0.0", false, true, true, false},  // prefixed
+	{"01.0.0", false, true, false, false}, // leading zero
+	{"", false, false, true, false},
+	{"1", false, true, false, true},             // shorthand: one component
+	{"1.0.0.0", false, true, false, true},       // four components
+	{"latest", false, true, false, true},        // no number at all
+	{"1.0.0-", false, true, false, true},        // empty pre-release
+	{"1.0.0-01", false, true, false, true},      // numeric pre-release identifier with leading zero
+	{"1.0.0+", false, true, false, true},        // empty build metadata
+	{"1.0.0 ", false, true, false, true},        // trailing blank
+	{"1.0.0-beta..2", false, true, false, true}, // empty pre-release identifier
 }
 
 func verOf(s string) *ver {
@@ -134,6 +148,11 @@ func stub(name, version string, omitURL bool) string {
 	}
 	return script(name, version, "{\"name\":\""+name+"\",\"description\":\"verif C20 stub\",\"version\":\""+version+"\","+url+
 		"\"supportedContractVersions\":[\"1.0\"],\"capabilities\":[\"SIGNATURE_VERIFIER.TRUSTED_IDENTITY\"]}", 0)
+}
+
+// goodAnswer is the valid metadata object of plugin foo with version v.
+func goodAnswer(v string) string {
+	return `{"name":"foo","description":"verif C20 stub","version":"` + v + `","url":"https://example.invalid/plugin","supportedContractVersions":["1.0"],"capabilities":["SIGNATURE_VERIFIER.TRUSTED_IDENTITY"]}`
 }
 
 // script is a plugin executable that answers get-plugin-metadata with the
@@ -255,6 +274,22 @@ var badMetadata = []struct {
 	{"not-json", false, func(v string) string { return script(pluginName, v, "foo "+v, 0) }},
 	{"truncated-json", false, func(v string) string {
 		return script(pluginName, v, `{"name":"foo","description":"verif C20 stub","version":"`+v+`","url":"https://example.invalid/plugin","supportedContractVersions":["1.0"],"capabilities":["SIGNATURE_VERIFIER.TRUSTED_IDENTITY"]`, 0)
+	}},
+	// bytes around a valid metadata object: the answer as a whole is not a JSON value
+	{"trailing-log-line", true, func(v string) string {
+		return script(pluginName, v, goodAnswer(v)+"\nplugin finished", 0)
+	}},
+	{"second-json-object", true, func(v string) string {
+		return script(pluginName, v, goodAnswer(v)+`{"name":"bar"}`, 0)
+	}},
+	{"trailing-brace", false, func(v string) string { return script(pluginName, v, goodAnswer(v)+"}", 0) }},
+	{"trailing-comma", false, func(v string) string { return script(pluginName, v, goodAnswer(v)+",", 0) }},
+	{"leading-log-line", false, func(v string) string {
+		return script(pluginName, v, "plugin starting\n"+goodAnswer(v), 0)
+	}},
+	{"wrapped-in-array", false, func(v string) string { return script(pluginName, v, "["+goodAnswer(v)+"]", 0) }},
+	{"json-string-holding-the-object", false, func(v string) string {
+		return script(pluginName, v, `"`+strings.ReplaceAll(goodAnswer(v), `"`, `\"`)+`"`, 0)
 	}},
 	{"valid-answer-exit-1", true, func(v string) string {
 		return script(pluginName, v, `{"name":"foo","description":"verif C20 stub","version":"`+v+`","url":"https://example.invalid/plugin","supportedContractVersions":["1.0"],"capabilities":["SIGNATURE_VERIFIER.TRUSTED_IDENTITY"]}`, 1)
@@ -1201,6 +1236,9 @@ func alphabet(thorough bool) (ops []op, vs []ver, shs []shape) {
 	for _, v := range vs {
 		for _, ow := range []bool{false, true} {
 			for _, s := range shs {
+				if v.PlainOnly && !plainShape(&s) {
+					continue
+				}
 				if s.Sub && (!v.Quick || (!thorough && !quickGenerated[v.S])) {
 					// what a sub-directory, a misnamed or an invalid answer does to an installation
 					// does not depend on the version: these shapes meet the six versions of the quick set only
@@ -1414,7 +1452,7 @@ func search(r *hx.Run) {
 	}
 	r.Extra["states_by_existing_plugin"] = byModel
 	fmt.Printf("C20: states=%d transitions=%d max_depth=%d fixpoint=%v ops/state=%d\n", len(all), transitions, maxDepth, !capped, len(ops))
-	if controls == 0 {
+	if controls == 0 && !capped {
 		r.Infra("no honest installation was accepted: all positive controls failed")
 	}
 }
